@@ -9,7 +9,7 @@
     association lists in document order with distinct keys. *)
 From Coq Require Import String.
 From FA Require Import model.Base model.Value model.Schema model.Float model.Utf8 model.Codec
-                       model.Validate model.Write model.Read.
+                       model.Validate model.Write model.Read model.Conform.
 
 Inductive jv :=
 | JvNull
@@ -274,6 +274,20 @@ Fixpoint json_dec (f : nat) (e : env) (s : schema) (j : jv) {struct f} : res ava
 Definition json_read (f : nat) (ro : ropts) (e : env) (s : schema) (j : jv) : res pyval :=
   let* a := json_dec f e s j in match py_of ro e s a with Some v => Ok v | None => Err end.
 
+(* json_reader as a generator over the documents of the text (one per line): the records yielded so far and how it ended.
+   A document that does not decode ends the iteration with an exception AFTER the records of the earlier documents have been
+   yielded; later documents are never looked at. *)
+Fixpoint json_read_stream (f : nat) (ro : ropts) (e : env) (s : schema) (docs : list jv) : list pyval * res unit :=
+  match docs with
+  | [] => ([], Ok tt)
+  | j :: docs =>
+      match json_read f ro e s j with
+      | Ok v => let (vs, r) := json_read_stream f ro e s docs in (v :: vs, r)
+      | Err => ([], Err)
+      | OutOfFuel => ([], OutOfFuel)
+      end
+  end.
+
 (* l[i] := x *)
 Fixpoint set_nth {A} (i : nat) (x : A) (l : list A) : list A :=
   match l, i with
@@ -281,6 +295,45 @@ Fixpoint set_nth {A} (i : nat) (x : A) (l : list A) : list A :=
   | _ :: l, O => x :: l
   | y :: l, S i => y :: set_nth i x l
   end.
+
+(* json_writer's default writer options *)
+Definition wo0 : wopts := {| strict := false; strict_allow_default := false; disable_tuple := false |}.
+
+Definition is_tuple (v : pyval) : bool := match v with PTuple _ => true | _ => false end.
+
+(** [dflt_bin f e s d]: the binary writer can take the JSON default [d] as a datum of type [s] and elaborates it the way the
+    JSON reading [dflt] does: no bytes/fixed inside (their JSON default is a str, which write_bytes rejects: DESIGN O1), and at every
+    union the writer's branch search (C09) settles on the FIRST branch, which is the one a default denotes. *)
+Fixpoint dflt_bin (f : nat) (e : env) (s : schema) (v : pyval) {struct f} : bool :=
+  match f with
+  | O => false
+  | S f =>
+    match s with
+    | SBytes | SFixed _ _ _ => false
+    | SArray it => match v with PList l => forallb (dflt_bin f e it) l | _ => true end
+    | SMap vs => match v with PDict kv => forallb (fun p => dflt_bin f e vs (snd p)) kv | _ => true end
+    | SUnion bs =>
+        match bs with
+        | b :: _ =>
+            negb (is_tuple v) &&
+            match choose (fun c x => validate f wo0 e c (Some x)) e v bs 0 (-1) (-1) false with Ok 0 => true | _ => false end &&
+            dflt_bin f e b v
+        | [] => false
+        end
+    | SRecord _ _ fs =>
+        match v with
+        | PDict kv => forallb (fun fd => match dict_get kv (fname fd) with
+                                         | Some x => dflt_bin f e (ftype fd) x
+                                         | None => match fdefault fd with Some d => dflt_bin f e (ftype fd) d | None => false end
+                                         end) fs
+        | _ => true
+        end
+    | SRef n => match lookup e n with Some s' => dflt_bin f e s' v | None => false end
+    | SAnnot _ s' => dflt_bin f e s' v
+    | _ => true
+    end
+  end.
+
 
 (** ---- side conditions of the round trip, as booleans ---- *)
 Fixpoint nodupb (l : list str) : bool :=
@@ -319,8 +372,26 @@ Fixpoint float_leaves_ok (a : aval) : bool :=
   | _ => true
   end.
 
+(* json_writer on a Python datum: elaborate (defaults, branch choice, coercions), then the JSON encoding *)
+Definition json_write (f : nat) (e : env) (s : schema) (v : pyval) : option jv :=
+  match elab f wo0 e s v with WOk a => json_enc e s a | _ => None end.
+
+(* the computable side condition of C15_json_binary: well-formed data and schema (what the abstraction of Python objects and parsed
+   schemas satisfies), distinct union labels / field names / symbols, named_schemas holds definitions, the datum is accepted by the
+   writer, and every float leaf of the elaborated value is an IEEE pattern, finite, and survives widening + re-narrowing *)
+Definition c15_side (f : nat) (e : env) (s : schema) (v : pyval) : bool :=
+  wf_env e && wf_schema s && wf_py v && named_env e && wf_envb e && wfb s &&
+  match elab f wo0 e s v with WOk a => floats_ok a && float_leaves_ok a | _ => false end.
+
+
 (** ---- text protocol ---- *)
+
 Open Scope string_scope.
+Definition c15_side_bits (f : nat) (e : env) (s : schema) (v : pyval) : string :=
+  let b (x : bool) := if x then "1" else "0" in
+  (b (wf_env e) ++ b (wf_schema s) ++ b (wf_py v) ++ b (named_env e) ++ b (wf_envb e) ++ b (wfb s) ++
+   b (match elab f wo0 e s v with WOk a => floats_ok a && float_leaves_ok a | _ => false end))%string.
+
 Fixpoint show_jv (j : jv) : string :=
   match j with
   | JvNull => "n"
@@ -334,7 +405,6 @@ Fixpoint show_jv (j : jv) : string :=
   end.
 
 Definition JFUEL : nat := 400.
-Definition wo0 : wopts := {| strict := false; strict_allow_default := false; disable_tuple := false |}.
 
 Definition show_pyo (o : option pyval) : string := match o with Some v => show_py v | None => "?" end.
 
@@ -357,7 +427,7 @@ Definition run_json (wut : bool) (e : env) (s : schema) (v : pyval) : string :=
           ++ (match dec JFUEL e s (wire a) with
               | Ok (a', []) => show_pyo (py_of ropts0 e s a')
               | _ => "E" end)
-          ++ ";L:" ++ (if float_leaves_ok a then "1" else "0")
+          ++ ";L:" ++ (if float_leaves_ok a then "1" else "0") ++ (if c15_side JFUEL e s v then "" else ";side-condition-false:" ++ c15_side_bits JFUEL e s v)
       | None => "NOJSON"
       end
   | WErr => "E"
@@ -366,3 +436,15 @@ Definition run_json (wut : bool) (e : env) (s : schema) (v : pyval) : string :=
   end.
 
 Definition run_jread (e : env) (s : schema) (j : jv) : string := show_jread e s j.
+
+(* json_reader iterated over the documents of a text: number of records yielded, then how the iteration ended *)
+Definition run_jstream (e : env) (s : schema) (docs : list jv) : string :=
+  let (vs, r) := json_read_stream JFUEL ropts0 e s docs in
+  "N:" ++ show_Z (len vs) ++ ";" ++ match r with Ok _ => "end" | Err => "raised" | OutOfFuel => "FUEL" end.
+
+(* a field default: its JSON reading, whether the binary writer elaborates it the same way (side condition of C15_defaults_binary),
+   and what the binary writer elaborates *)
+Definition run_dflt (e : env) (s : schema) (d : pyval) : string :=
+  "A:" ++ match dflt JFUEL e s d with Ok a => show_a a | Err => "E" | OutOfFuel => "FUEL" end
+  ++ ";B:" ++ (if dflt_bin JFUEL e s d then "1" else "0")
+  ++ ";E:" ++ match elab JFUEL wo0 e s d with WOk a => show_a a | WErr => "E" | WUnspec => "U" | WFuel => "FUEL" end.
